@@ -62,7 +62,22 @@ func genC05(seed uint64, tier string) *world.Scenario {
 			f.NeverStop = r.Bool(0.5)
 		}
 		// PWM map kinds under which the fan reads back what was written
-		switch r.Intn(3) {
+		mapKind := r.Intn(3)
+		if or := kernel.NewRand(seed, fmt.Sprintf("c05.offsetmap.%d", i)); or.Bool(0.25) {
+			// a user map whose outputs differ from its keys (the fan needs an offset): key k -> k+c; with a
+			// rate limit of c (or a PID creeping by a few steps) the fan often shows exactly the next KEY
+			mapKind = 3
+			c := kernel.Pick(or, 1, 2, 3, 5, 10)
+			m := map[int]int{}
+			for k := 0; k <= 255; k++ {
+				m[k] = min(255, k+c)
+			}
+			f.PwmMap = &m
+			if or.Bool(0.6) {
+				f.Algo = world.AlgoSpec{Kind: "direct", MaxChange: world.IntP(c)}
+			}
+		}
+		switch mapKind {
 		case 0: // identity, discovered by the sweep
 		case 1: // sparse user map, outputs = keys' images read back as written
 			m := map[int]int{}
